@@ -252,11 +252,14 @@ def Opt(t):
 class Val:
     """A symbolic value: type descriptor + one z3 term."""
 
-    __slots__ = ("ty", "t")
+    __slots__ = ("ty", "t", "foreign")
 
-    def __init__(self, ty, t):
+    def __init__(self, ty, t, foreign=False):
         self.ty = ty
         self.t = t
+        # foreign: a by-value VIEW of an object this function does not own (e.g. a value handed out by user code); mutating
+        # it in place would change the caller's object - outside every frame condition
+        self.foreign = foreign
 
     def __repr__(self):
         return f"<{self.ty.name} {self.t}>"
